@@ -150,4 +150,14 @@ theorem monitor_bytes_kept_sound (kv : KV.KV) (c : DB.Caller) (op : DB.Op) (aok 
     DBMon.c18_bytes_kept (MonSound.obsOf kv c op aok sok) = true :=
   MonSound.c18_bytes_kept_sound kv c op aok sok h
 
+/-- T1, the client's side of the exchange: a POST with exactly the two headers the front door
+asks for (it announces no encodings of its own - the transport does that and undoes it), and
+the answer's body read whole, whatever its length, in both the error and the success path. -/
+theorem fact_client_exchange :
+    Facts.clientMethod = ["\"POST\""] ∧
+    Facts.clientRequestHeaders =
+      ["\"Content-Type\": \"application/json\"", "\"Sec-X-Tailscale-No-Browsers\": \"setec\""] ∧
+    Facts.clientBodyReads = ["io.ReadAll(httpResp.Body)", "io.ReadAll(httpResp.Body)"] := by
+  decide
+
 end Setec.C18
